@@ -98,6 +98,9 @@ def eval_instance(tier, seed=0):
     for s, c in ((["T"], "a"), (["S"], "b")):
         for b in (True, False):
             ops.append({"op": "set_cached", "s": s, "c": c, "b": b})
+    # a whole space goes away: its values (inputs too), the values computed from its cells,
+    # and the values that reached its references / model-level references through it
+    ops.append({"op": "del_space", "p": ["T"]})
     return {"inits": inits, "ops": ops}
 
 
